@@ -64,12 +64,14 @@ class DocWorld(D.World):
         doc = self.doc
         top = doc.topnode
         self.say('new e %d %d' % (self.adopt(top), self.qntok(top.qname)), 'ok')
+        self.say_attrs(0, top)
         self.say('mkdoc 0', 'ok')
         def build(parent):
             for c in parent.childNodes:
                 if c.nodeType == 1:
                     i = self.adopt(c)
                     self.say('new e %d %d' % (i, self.qntok(c.qname)), 'ok')
+                    self.say_attrs(i, c)
                     for t in c.childNodes:          # only meta:generator has content in a fresh document
                         if t.nodeType == 3 and not any(k.nodeType == 1 for k in c.childNodes):
                             ti = self.adopt(t)
@@ -81,6 +83,10 @@ class DocWorld(D.World):
         self.skel = set(self.nodes)
         self.meta_id = self.nid(doc.meta)
         self.say('snap', None)
+
+    def say_attrs(self, i, node):
+        for key, v in node.attributes.items():
+            self.say('setns %d %d o%d' % (i, self.keytok(key), self.valtok(v)), 'ok')
 
     def fresh(self):
         self.next_id += 1
@@ -304,7 +310,7 @@ class History(object):
                 orc.renamed = True
         legal = self.legal(op)
         ans = w.do(op)
-        if legal and ans != 'ok':
+        if legal and not ans.startswith('ok'):
             orc.fail('legal-edit-refused', idx, '%s answered %s' % (op, ans))
         if ans.startswith('err Unexpected'):
             orc.fail('unexpected-exception', idx, '%s answered %s' % (op, ans))
@@ -359,15 +365,27 @@ class History(object):
     def parents(self):
         w = self.w
         d = w.doc
-        pref = [w.nid(x) for x in (d.text, d.styles, d.automaticstyles, d.text, d.styles, d.body)]
+        pref = [w.nid(x) for x in (getattr(d, 'text', None), d.styles, d.automaticstyles, getattr(d, 'text', None), d.styles, d.body)]
+        pref = [i for i in pref if isinstance(i, int)]
         return pref + [i for i in self.movable() if w.nodes[i].nodeType == 1]
 
     def random_op(self):
         r = self.rng; w = self.w
         for _ in range(40):
-            k = r.choice(['append'] * 5 + ['insb'] * 4 + ['rm'] * 4 + ['adde'] * 2 + ['addt', 'addc', 'rename', 'render',
-                          'query', 'query', 'load', 'rmbad', 'textparent'])
+            k = r.choice(['append'] * 4 + ['insb'] * 4 + ['rm'] * 4 + ['adde'] * 2 + ['addstyle'] * 3 + ['attach'] * 3 +
+                         ['addt', 'addc', 'rename', 'render', 'query', 'query', 'load', 'rmbad', 'textparent'])
             P = self.parents(); M = self.movable()
+            if k == 'addstyle':
+                S = [i for i in M if w.nodes[i].nodeType == 1 and w.nodes[i].qname == QSTYLE]
+                p = w.nid(r.choice([w.doc.styles, w.doc.automaticstyles]))
+                c = r.choice(S)
+                ks = [w.nid(x) for x in w.nodes[p].childNodes]
+                return ['insb', p, c, r.choice(ks)] if ks and r.random() < 0.3 and c not in ks else ['append', p, c]
+            if k == 'attach':
+                A = [p for p in P if attached_to(w.nodes[p], w.doc.topnode)]
+                p = r.choice(A); c = r.choice(M)
+                if w.is_ancestor_or_self(c, p): continue
+                return ['append', p, c]
             if k in ('append', 'insb', 'adde'):
                 p = r.choice(P); c = r.choice(M)
                 if w.is_ancestor_or_self(c, p): continue
@@ -436,7 +454,7 @@ def shrink(ops, sig):
 def report(chk, h):
     sig, idx, detail = h.orc.failed
     ops = h.ops[:idx + 1]
-    if not any(k['sig'] == sig for k in chk.known):
+    if not any(k['sig'] == sig for k in chk.known) and not any(f['sig'] == sig for f in chk.failures):
         try:
             ops = shrink(ops, sig)
         except Exception:
